@@ -344,3 +344,223 @@ pub fn report(own: &[&str], res: &HistResult, out: &mut Outcome, case: u64, seed
     let _ = describe_input;
     let _ = Op::Sync;
 }
+
+// ---------------------------------------------------------------------------------------------
+// Fault enumeration (C09): the same history is re-run once per (cut point, victim, way, queue
+// state); the prefix is reproduced exactly because every random choice derives from the seed and
+// the model state.
+// ---------------------------------------------------------------------------------------------
+
+#[derive(Clone, Copy, Debug, PartialEq, Eq)]
+pub enum Way {
+    ClientShutdown,
+    TransportClosed,
+    HandleShutdown,
+    FutureDropped,
+}
+
+pub const WAYS: [Way; 4] = [Way::ClientShutdown, Way::TransportClosed, Way::HandleShutdown, Way::FutureDropped];
+
+#[derive(Clone, Copy, Debug)]
+pub struct FaultPlan {
+    /// number of operations dequeued before the termination
+    pub k: usize,
+    /// index into the connections alive at that point
+    pub victim: usize,
+    pub way: Way,
+    /// 0: the broker queue is empty; 1: requests of the victim are queued ahead of the
+    /// termination; 2 (handle only): the termination is queued ahead of the victim's requests
+    pub queued: u8,
+}
+
+pub struct FaultRun {
+    pub res: HistResult,
+    /// connections alive at each cut point of the prefix (filled by a planning run)
+    pub alive_at: Vec<usize>,
+    pub applicable: bool,
+}
+
+pub fn run_fault(seed_rng: Rng, profile: Profile, plan: Option<FaultPlan>, out: &mut Outcome) -> FaultRun {
+    let mut rig = Rig::new();
+    rig.log_on = true;
+    let mut gen = Gen::new(seed_rng, profile.clone());
+    let mut res = HistResult { mismatch: None, panics: Vec::new(), version_violations: Vec::new(), events: Vec::new(), steps: 0, bursts: 0, hash: 0, inconclusive: None };
+    let mut alive_at = Vec::new();
+    let n0 = gen.rng.range(profile.conns.0, profile.conns.1);
+    for _ in 0..n0 {
+        let v = *gen.rng.pick(&profile.versions);
+        rig.connect(v);
+    }
+    let limit = plan.map(|p| p.k).unwrap_or(profile.ops);
+    let mut done = 0usize;
+    let mut tries = 0usize;
+    let mut applicable = plan.is_none();
+    // prefix: one operation at a time, so that cut points are well defined
+    while done < limit && tries < profile.ops * 30 {
+        tries += 1;
+        gen.remember(rig.model());
+        let alive = rig.model().conns.iter().filter(|c| c.state == ConnState::Alive).count();
+        let Some(inp) = gen.next(rig.model()) else { continue };
+        alive_at.push(alive);
+        done += 1;
+        if let Input::Connect(v) = inp {
+            rig.connect(v);
+            continue;
+        }
+        if let Err(e) = rig.burst(&[inp]) {
+            res.mismatch = Some(e);
+            break;
+        }
+        if !rig.dx.panics.is_empty() {
+            break;
+        }
+        if plan.is_some() {
+            if let Err(e) = check_books(&mut rig, out) {
+                res.mismatch = Some(e);
+                break;
+            }
+        }
+    }
+    if let (Some(p), true) = (plan, res.mismatch.is_none() && rig.dx.panics.is_empty() && done == limit) {
+        let alive: Vec<usize> = (0..rig.model().conns.len()).filter(|&c| rig.model().conns[c].state == ConnState::Alive).collect();
+        if p.victim < alive.len() {
+            applicable = true;
+            let v = alive[p.victim];
+            let mut burst: Vec<Input> = Vec::new();
+            let term = match p.way {
+                Way::ClientShutdown => Input::Msg(v, aldrin_core::message::Shutdown.into()),
+                Way::TransportClosed => Input::CloseTransport(v),
+                Way::HandleShutdown => Input::HandleShutdown(v),
+                Way::FutureDropped => Input::DropFuture(v),
+            };
+            let mut own: Vec<Input> = Vec::new();
+            if p.queued > 0 {
+                let n = 1 + gen.rng.below(3);
+                for _ in 0..n {
+                    gen.remember(rig.model());
+                    if let Some(i) = gen.next_for(rig.model(), v) {
+                        own.push(i);
+                    }
+                }
+            }
+            if p.queued == 2 {
+                burst.push(term);
+                burst.extend(own);
+            } else {
+                burst.extend(own);
+                burst.push(term);
+            }
+            rig.log(format!("-- termination of #{} {:?} queued={}", v, p.way, p.queued));
+            let r = rig.burst(&burst).and_then(|_| check_books(&mut rig, out));
+            if let Err(e) = r {
+                res.mismatch = Some(e);
+            }
+            // a dropped task is only noticed at the next delivery attempt: provoke one
+            if res.mismatch.is_none() && rig.dx.panics.is_empty() && p.way == Way::FutureDropped {
+                if let Err(e) = provoke_delivery(&mut rig, &mut gen, v, out) {
+                    res.mismatch = Some(e);
+                }
+            }
+            // the bus keeps working for the others
+            let mut post = 0;
+            let mut t2 = 0;
+            while res.mismatch.is_none() && rig.dx.panics.is_empty() && post < 5 && t2 < 100 {
+                t2 += 1;
+                gen.remember(rig.model());
+                let Some(inp) = gen.next(rig.model()) else { continue };
+                post += 1;
+                if let Input::Connect(ver) = inp {
+                    rig.connect(ver);
+                    continue;
+                }
+                if matches!(inp, Input::DropFuture(_)) {
+                    continue;
+                }
+                let r = rig.burst(&[inp]).and_then(|_| check_books(&mut rig, out));
+                if let Err(e) = r {
+                    res.mismatch = Some(e);
+                }
+            }
+            if res.mismatch.is_none() && rig.dx.panics.is_empty() {
+                let opts = HistOpts { books: true, teardown: true, broker_shutdown: false };
+                if let Err(e) = teardown(&mut rig, &mut gen, &opts, out) {
+                    res.mismatch = Some(e);
+                } else if let Err(e) = final_books(&mut rig) {
+                    res.mismatch = Some(e);
+                }
+            }
+        }
+    }
+    if rig.budget_hit {
+        res.inconclusive = Some("settle loop exceeded its round budget".into());
+    }
+    out.max("model_state_set_max", rig.max_cands as u64);
+    out.count("dropped_connection_detections", rig.zombie_detections);
+    for k in &rig.kinds_delivered {
+        out.seen("kinds_delivered", k.clone());
+    }
+    res.steps = rig.steps;
+    res.panics = rig.dx.panics.clone();
+    res.hash = fnv(rig.events.join("\n").as_bytes());
+    res.events = std::mem::take(&mut rig.events);
+    rig.dx.shutdown();
+    FaultRun { res, alive_at, applicable }
+}
+
+/// Makes the broker try to deliver something to the dropped connection `v`: a call to one of
+/// its services, the closing of a channel peer end, or (fallback) a forced shutdown.
+fn provoke_delivery(rig: &mut Rig, gen: &mut Gen, v: usize, out: &mut Outcome) -> Result<(), Mismatch> {
+    use aldrin_core::message::*;
+    if rig.cands.iter().all(|c| c.model.conns[v].state == ConnState::Gone) {
+        out.count("dropped_noticed_without_probe", 1);
+        return Ok(());
+    }
+    let m = rig.model().clone();
+    let others: Vec<usize> = (0..m.conns.len()).filter(|&c| c != v && m.conns[c].state == ConnState::Alive).collect();
+    let svc = m.svcs.values().find(|s| s.owner == v).map(|s| s.cookie);
+    let inp = match (svc, others.first()) {
+        (Some(sc), Some(&o)) => {
+            out.count("dropped_probe:call", 1);
+            let mut serial = 77_000;
+            while m.conns[o].calls.contains_key(&serial) {
+                serial += 1;
+            }
+            Input::Msg(o, CallFunction { serial, service_cookie: sc, function: 0, value: gen.payload(m.conns[o].version) }.into())
+        }
+        _ => {
+            out.count("dropped_probe:forced-shutdown", 1);
+            Input::HandleShutdown(v)
+        }
+    };
+    rig.burst(&[inp])?;
+    check_books(rig, out)?;
+    if !rig.cands.iter().all(|c| c.model.conns[v].state == ConnState::Gone) {
+        return Err(Mismatch {
+            what: "dropped-connection-not-released".into(),
+            kind: "disconnect".into(),
+            detail: format!("connection #{} (task dropped) is still in the broker's books after a delivery to it was attempted", v),
+        });
+    }
+    Ok(())
+}
+
+#[cfg(feature = "hooks")]
+fn final_books(rig: &mut Rig) -> Result<(), Mismatch> {
+    // the broker may already have returned (idle shutdown): then there is nothing left to ask
+    if rig.dx.is_done(rig.broker_task) {
+        return Ok(());
+    }
+    if let Some(s) = rig.snapshot() {
+        let zero = s.objs + s.obj_uuids + s.svcs + s.svc_uuids + s.function_calls + s.channels + s.bus_listeners + s.introspection + s.query_introspection;
+        let zombies = rig.model().conns.iter().any(|c| c.state == ConnState::Zombie);
+        if zero != 0 && !zombies {
+            return Err(Mismatch { what: "residual-state".into(), kind: "disconnect".into(), detail: format!("all connections are gone but the broker still holds {:?}", s) });
+        }
+    }
+    Ok(())
+}
+
+#[cfg(not(feature = "hooks"))]
+fn final_books(_rig: &mut Rig) -> Result<(), Mismatch> {
+    Ok(())
+}
